@@ -227,6 +227,8 @@ def pyval(v):
         return "(VDict [%s])" % "; ".join("(%s, %s)" % (pyval(k), pyval(x)) for k, x in v.items())
     if isinstance(v, Obj):
         return "(VObj %s (%d))" % (coq_str(v.cls), v.id)
+    if isinstance(v, float):
+        return "(VObj \"float\" 0)"
     raise ValueError("no pyval literal for %r" % (v,))
 
 
@@ -266,6 +268,8 @@ def show(v):
         return "{" + "".join(show(k) + ":" + show(x) + "," for k, x in v.items()) + "}"
     if isinstance(v, Obj):
         return "o%s#%d" % (v.cls, v.id)
+    if isinstance(v, float):
+        return "ofloat#0"       # floats are opaque in the model (VObj "float" 0)
     raise ValueError("no show for %r" % (v,))
 
 
